@@ -17,6 +17,7 @@ ASSUMPTIONS = ["the toy pool has 9 points; only their classification matters to 
 CASE_ALARM_S = 300
 TIMEOUT_IS_VIOLATION = "a solve with an iteration limit did not return"
 FILTERS = ("ObjectiveFilter", "LagrangianFilter")
+_PREV = None
 
 
 def run_table(tier, seed):
@@ -46,6 +47,14 @@ def run_case(case):
         return {"outcome": "setup:" + type(ctx.setup_error).__name__, "key": None, "violations": [], "stats": {}}
     viol = M.mon_c12(ctx.rec, ctx.F, ctx.weights, ctx.params, case["spec"]["x0"], case["spec"].get("y0"),
                      case["cfg"].get("penalty") in FILTERS)
+    import numpy as np
+    global _PREV
+    if _PREV is not None:
+        pr, ppath, ptimes, ptag = _PREV
+        if pr.path is None or pr.path.shape != ppath.shape or not np.array_equal(pr.path, ppath) or not np.array_equal(pr.model_times, ptimes):
+            viol.append(M.V("C12|earlier_result_changed", f"the path/model_times of the result of an earlier solve ({ptag}) changed after a later solve in the same process"))
+    r = ctx.rec.result
+    _PREV = (r, np.array(r.path, copy=True), np.array(r.model_times, copy=True), case["spec"]["tag"]) if r is not None and r.path is not None else None
     rej = sum(1 for t in ctx.rec.trials if not t.accepted)
     return {"outcome": outcome_of(ctx.rec), "key": f"{case['spec']['tag']}|{G.cfg_key(case['cfg'])}|{ctx.weights}" if rej else None,
             "violations": viol, "stats": {"run": 1, "trials": len(ctx.rec.trials), "rejected": rej}}
